@@ -33,7 +33,8 @@ CONSTANTS
   MaxStray,            \* total stray datagrams
   MaxEnter,            \* calls start at now <= MaxEnter
   MaxDelay,            \* controller reply delay bound (T-1: always timely)
-  PeerFaults,          \* subset of {"silence","refused","reset"} the controller side may choose instead of replying
+  PeerFaults,          \* subset of {"silence","refused","reset","blackhole"} the controller side may choose instead of replying
+                       \* (blackhole: TCP only - the SYN is never answered, the connect itself must give up at the deadline)
   DeadlineBeforeLock,  \* design switch (defect F10: deadline computed before waiting for the guard)
   NoGuard,             \* design switch (no process-wide lock around a fixed port)
   GuardPerClient,      \* design switch (the lock belongs to a client instead of the process: clients do not exclude each other)
@@ -107,9 +108,9 @@ Lock(c) ==
 \* what the controller side does with a request: a peer fault, or a sequence of 1..MaxReplies datagrams
 ReplySeqs == UNION {[1..n -> ReplyClasses \X (0..MaxDelay)] : n \in 1..MaxReplies}
 Ordered(s) == \A i \in 1..(Len(s) - 1) : s[i][2] <= s[i + 1][2]
-Plans(c) == {<<<<f, 0>>>> : f \in PeerFaults \cap (IF Path(c) = "tcp" THEN {"silence", "refused", "reset"} ELSE IF Path(c) = "udp" THEN {"silence", "refused"} ELSE {"silence"})}
+Plans(c) == {<<<<f, 0>>>> : f \in PeerFaults \cap (IF Path(c) = "tcp" THEN {"silence", "refused", "reset", "blackhole"} ELSE IF Path(c) = "udp" THEN {"silence", "refused"} ELSE {"silence"})}
             \cup {s \in ReplySeqs : Ordered(s)}
-IsFault(p) == Len(p) = 1 /\ p[1][1] \in {"silence", "refused", "reset"}
+IsFault(p) == Len(p) = 1 /\ p[1][1] \in {"silence", "refused", "reset", "blackhole"}
 
 \* a fixed port that is still held by an open socket cannot be bound again (the OS port table)
 PortBusy(c) == FixedPort /\ open # {}
@@ -131,6 +132,14 @@ Send(c) ==
                       /\ pc' = [pc EXCEPT ![c] = "closing"]
                       /\ askedAt' = [askedAt EXCEPT ![c] = now]
                       /\ UNCHANGED <<dl, open, pend, sends>>
+                 ELSE IF p[1][1] = "blackhole"
+                 THEN \* the SYN is never answered: the socket is bound and the dial waits, bounded by the same deadline;
+                      \* no request ever leaves
+                      /\ dl' = [dl EXCEPT ![c] = d]
+                      /\ open' = open \cup {c}
+                      /\ askedAt' = [askedAt EXCEPT ![c] = now]
+                      /\ pc' = [pc EXCEPT ![c] = "sent"]
+                      /\ UNCHANGED <<out, pend, sends>>
                  ELSE /\ dl' = [dl EXCEPT ![c] = d]
                       /\ open' = open \cup {c}
                       /\ sends' = [sends EXCEPT ![c] = @ + 1]
@@ -258,7 +267,8 @@ SetAddrNeverReads == \A c \in Calls : (Kind(c) = "setaddr" /\ pc[c] = "done") =>
 \* C06 / C07 -- exactly one request per accepted call, none for a refused one
 ExactlyOneSend == \A c \in Calls : pc[c] = "done" =>
                     sends[c] = (IF out[c].kind \in {"rejected", "binderr"} \/ (out[c].kind = "timeout" /\ askedAt[c] = -1)
-                                   \/ (out[c].kind = "peererr" /\ out[c].cls = "refused" /\ Path(c) = "tcp") THEN 0 ELSE 1)
+                                   \/ (out[c].kind = "peererr" /\ out[c].cls = "refused" /\ Path(c) = "tcp")
+                                   \/ (plan[c] # <<>> /\ plan[c][1][1] = "blackhole") THEN 0 ELSE 1)
 RejectedSendsNothing == \A c \in Calls : Kind(c) = "badid" => sends[c] = 0 /\ (pc[c] = "done" => out[c].kind = "rejected")
 
 \* C08 -- replies are never crossed between calls
